@@ -259,7 +259,7 @@ func runC05(r *Run) {
 			la := g.leaf(d, a, true)
 			lb := g.leaf(d, b, comp != 1 || true)
 			g.forceInv = 0
-			if hasLabel(la) && (hasLabel(lb) || hasStrip(lb)) && comp == 0 {
+			if hasLabel(la) && hasLabel(lb) && comp == 0 { // (a strip after a label is fine: the label stays)
 				lb = &btpb.RowFilter{Filter: &btpb.RowFilter_PassAllFilter{PassAllFilter: true}}
 			}
 			switch comp {
